@@ -1040,6 +1040,289 @@ Proof.
   cbn [hd0 Z.eqb]. rewrite bind_ret.
   unfold dec_level. rewrite bind_modify. stsimpl. reflexivity.
 Qed.
+
+(* ================================================================ template arguments (builtin types) *)
+Definition NST (p : Z) (o : option (list Z)) (lv tp : Z) (fnm : bool) : state :=
+  mkst p L o 0 lv tp false fnm false false.
+
+Lemma type_builtin_T : forall k p o lv tp fnm c rest,
+  At p (c :: rest) -> is_builtin c = true ->
+  run s 0 (S (S k)) FType (NST p o lv tp fnm) = R 0 (NST (p + 1) o lv tp fnm).
+Proof.
+  intros k p o lv tp fnm c rest H Hb.
+  destruct (builtin_facts c Hb) as [F1 [F2 [F3 [F4 [F5 [F6 [F7 [F8 [F9 [F10 [F11 [F12 [F13 F14]]]]]]]]]]]]].
+  change (run s 0 (S (S k)) FType) with (dd_type (run s 0 (S k))).
+  unfold dd_type, NST. pose proof (At_lt _ _ _ H).
+  rewrite bind_eof. stsimpl. rwf (p >=? L). cbn [Z.eqb].
+  unfold inc_typ, inc_level. rewrite !bind_modify. stsimpl.
+  assert (Hl : run s 0 (S k) (LType (-1)) (mkst p L o (0 + 1) (lv + 1) tp false fnm false false)
+               = R 0 (mkst (p + 1) L o (0 + 1) (lv + 1) tp false fnm false false)).
+  { cbn [run body]. unfold type_loop.
+    rewrite bind_eof. stsimpl. rwf (p >=? L). cbn [Z.eqb].
+    erewrite bind_R; [| apply (curr_at _ (c :: rest)); [ exact H | reflexivity ] ].
+    cbn [hd0]. rewrite F1, F2, F3, F4, F5, F6, F7, F8, F9, F10, F11, F12.
+    unfold is_builtin in Hb. rewrite Hb. unfold consume.
+    erewrite bind_R; [| apply (consume_n_at _ 1 (c :: rest)); [ exact H | reflexivity | cbn [List.length]; lia ] ].
+    reflexivity. }
+  erewrite bind_R; [| exact Hl ].
+  unfold dec_level, dec_typ. rewrite !bind_modify. stsimpl. unfold ret.
+  replace (0 + 1 - 1) with 0 by lia. replace (lv + 1 - 1) with lv by lia. reflexivity.
+Qed.
+
+Lemma builtin_lower : forall c, is_builtin c = true -> 97 <= c <= 122.
+Proof.
+  intros c H. unfold is_builtin in H. cbn in H.
+  repeat (apply orb_prop in H; destruct H as [H | H]); try discriminate; apply Z.eqb_eq in H; subst c; lia.
+Qed.
+
+Lemma template_arg_builtin : forall k p o lv tp fnm c rest, (3 <= k)%nat ->
+  At p (c :: rest) -> is_builtin c = true ->
+  run s 0 k FTemplateArg (NST p o lv tp fnm) = R 0 (NST (p + 1) o lv tp fnm).
+Proof.
+  intros k p o lv tp fnm c rest Hk H Hb.
+  destruct k as [| [| [| k]]]; try lia.
+  change (run s 0 (S (S (S k))) FTemplateArg) with (dd_template_arg s 0 (run s 0 (S (S k)))).
+  unfold dd_template_arg. unfold NST at 1. pose proof (builtin_lower c Hb) as Hlow. pose proof (At_lt _ _ _ H).
+  erewrite bind_R; [| apply (curr_at _ (c :: rest)); [ exact H | reflexivity ] ].
+  rewrite bind_eof. stsimpl. rwf (p >=? L). cbn [hd0]. chs. cbn [Z.eqb].
+  rwf (c =? 88). rwf (c =? 76). rwf (c =? 74).
+  fold (NST p o lv tp fnm).
+  erewrite bind_R; [| apply (type_builtin_T k p o lv tp fnm c rest); assumption ].
+  reflexivity.
+Qed.
+
+Lemma until_targs : forall targs k p o lv tp fnm rest, (List.length targs + 4 <= k)%nat ->
+  At p (targs ++ 69 :: rest) -> forallb is_builtin targs = true ->
+  run s 0 k (LUntilE FTemplateArg) (NST p o lv tp fnm) = R 0 (NST (p + Z.of_nat (List.length targs)) o lv tp fnm).
+Proof.
+  induction targs as [| c ts IH]; intros k p o lv tp fnm rest Hk H Hb.
+  - destruct k as [| k]; [ cbn [List.length] in Hk; lia |].
+    cbn [run body]. unfold until_E. unfold NST at 1. cbn [app] in H.
+    erewrite bind_R; [| apply (curr_at _ (69 :: rest)); [ exact H | reflexivity ] ].
+    cbn [hd0 List.length]. chs. cbn [Z.eqb Pos.eqb]. replace (p + Z.of_nat 0) with p by lia. reflexivity.
+  - cbn [forallb] in Hb. apply andb_prop in Hb. destruct Hb as [Hc Hts].
+    cbn [List.length] in Hk. destruct k as [| k]; [ lia |].
+    cbn [run body]. unfold until_E. unfold NST at 1. cbn [app] in H.
+    pose proof (builtin_lower c Hc) as Hlow.
+    erewrite bind_R; [| apply (curr_at _ (c :: ts ++ 69 :: rest)); [ exact H | reflexivity ] ].
+    cbn [hd0]. chs. rwf (c =? 69).
+    fold (NST p o lv tp fnm).
+    erewrite bind_R; [| apply (template_arg_builtin k p o lv tp fnm c (ts ++ 69 :: rest)); [ lia | exact H | exact Hc ] ].
+    cbn [Z.ltb Z.compare].
+    rewrite (IH k (p + 1) o lv tp fnm rest); [| lia | apply At_cons in H; exact H | exact Hts ].
+    cbn [List.length]. f_equal. unfold NST. f_equal. lia.
+Qed.
+
+(* I <builtin type>* E *)
+Lemma template_args_at : forall targs k p o lv fnm rest, (List.length targs + 5 <= k)%nat ->
+  At p (73 :: targs ++ 69 :: rest) -> forallb is_builtin targs = true ->
+  run s 0 k FTemplateArgs (NS p o lv fnm) = R 0 (NS (p + Z.of_nat (List.length targs) + 2) o lv fnm).
+Proof.
+  intros targs k p o lv fnm rest Hk H Hb.
+  destruct k as [| k]; [ lia |].
+  change (run s 0 (S k) FTemplateArgs) with (dd_template_args s 0 (run s 0 k)).
+  unfold dd_template_args. unfold NS at 1. pose proof (At_lt _ _ _ H).
+  rewrite bind_eof. stsimpl. rwf (p >=? L). cbn [Z.eqb].
+  unfold expect at 1. unfold consume.
+  erewrite bind_R; [| apply (consume_n_at _ 1 (73 :: targs ++ 69 :: rest)); [ exact H | reflexivity | cbn [List.length]; lia ] ].
+  cbn [hd0]. chs. cbn [Z.eqb Pos.eqb]. stsimpl.
+  unfold inc_templates, inc_level. rewrite !bind_modify. stsimpl.
+  fold (NST (p + 1) o (lv + 1) (0 + 1) fnm).
+  apply At_cons in H.
+  erewrite bind_R; [| apply (until_targs targs k (p + 1) o (lv + 1) (0 + 1) fnm rest); [ lia | exact H | exact Hb ] ].
+  cbn [Z.ltb Z.compare].
+  apply At_app in H.
+  unfold expect. unfold consume. unfold NST at 1.
+  erewrite bind_R; [| apply (consume_n_at _ 1 (69 :: rest)); [ exact H | reflexivity | cbn [List.length]; lia ] ].
+  cbn [hd0]. chs. cbn [Z.eqb Pos.eqb]. stsimpl.
+  unfold dec_level, dec_templates. rewrite !bind_modify. stsimpl. unfold ret, NS.
+  replace (lv + 1 - 1) with lv by lia. replace (0 + 1 - 1) with 0 by lia.
+  replace (p + 1 + Z.of_nat (List.length targs) + 1) with (p + Z.of_nat (List.length targs) + 2) by lia. reflexivity.
+Qed.
+
+(* components with optional template arguments *)
+Definition targs_enc (targs : list Z) : list Z := match targs with [] => [] | _ => 73 :: targs ++ [69] end.
+Definition tenc (c : list Z * list Z) : list Z := src (fst c) ++ targs_enc (snd c).
+Definition tsrcs (comps : list (list Z * list Z)) : list Z := List.concat (map tenc comps).
+Definition tcost (c : list Z * list Z) : nat := match snd c with [] => 1 | t => List.length t + 7 end.
+Definition tcosts (comps : list (list Z * list Z)) : nat := fold_right (fun c n => tcost c + n)%nat 0%nat comps.
+Definition tcomp_okb (c : list Z * list Z) : bool := ident_okb (fst c) && forallb is_builtin (snd c).
+
+Lemma nested_tcomps : forall comps l k p o lv fnm rest x,
+  At p (tsrcs comps ++ last_enc l ++ 69 :: rest) -> forallb tcomp_okb comps = true -> last_okb l = true ->
+  no_dollar (tsrcs comps ++ last_enc l ++ 69 :: rest) -> L <= INT_MAX ->
+  out_after o fnm (map fst comps) = Some x -> fnm_after fnm (map fst comps) = false ->
+  (tcosts comps + 3 <= k)%nat ->
+  run s 0 k (LNested 0) (NS p o lv fnm) =
+  R 0 (NS (p + Z.of_nat (List.length (tsrcs comps)) + Z.of_nat (List.length (last_enc l))) (Some (last_out x l)) lv false).
+Proof.
+  induction comps as [| [id targs] cs IH]; intros l k p o lv fnm rest x H Hok Hl Hnd HL Hout Hfnm Hk.
+  - cbn [tsrcs map List.concat app List.length out_after fnm_after tcosts fold_right] in *.
+    subst o fnm. replace (p + Z.of_nat 0) with p by lia.
+    destruct k as [| [| [| k]]]; try lia.
+    apply (nested_end l k p x lv rest H Hl).
+  - cbn [forallb] in Hok. apply andb_prop in Hok. destruct Hok as [Hc Hcs].
+    unfold tcomp_okb in Hc. cbn [fst snd] in Hc. apply andb_prop in Hc. destruct Hc as [Hid Hta].
+    unfold tsrcs in *. cbn [map List.concat] in *. unfold tenc at 1 in H. unfold tenc at 1 in Hnd. cbn [fst snd] in H, Hnd.
+    cbn [tcosts fold_right] in Hk. fold (tcosts cs) in Hk.
+    set (tail := List.concat (map tenc cs) ++ last_enc l ++ 69 :: rest) in *.
+    rewrite <- !app_assoc in H, Hnd. fold tail in H, Hnd.
+    (* first character of what follows the identifier is not 'B' *)
+    assert (HtailB : hd0 tail <> 66).
+    { unfold tail. destruct cs as [| [id2 ta2] cs2].
+      - cbn [map List.concat app]. destruct l as [| kd | kd | c0 c1]; cbn [last_enc app hd0]; try lia.
+        cbn [last_okb] in Hl. apply andb_prop in Hl. destruct Hl as [Hl _]. apply andb_prop in Hl. destruct Hl as [Hl _].
+        unfold op_okb in Hl. apply andb_prop in Hl. destruct Hl as [Hl _]. apply andb_prop in Hl. destruct Hl as [Hl _].
+        unfold islower in Hl. lia.
+      - cbn [map List.concat forallb] in *. apply andb_prop in Hcs. destruct Hcs as [Hc2 _].
+        unfold tcomp_okb in Hc2. apply andb_prop in Hc2. destruct Hc2 as [Hid2 _]. cbn [fst] in Hid2.
+        unfold tenc at 1. cbn [fst snd]. rewrite <- !app_assoc.
+        pose proof (src_hd_digit id2 (targs_enc ta2 ++ List.concat (map tenc cs2) ++ last_enc l ++ 69 :: rest) Hid2). lia. }
+    destruct k as [| k1]; [ lia |].
+    cbn [run body]. unfold nested_loop.
+    pose proof (src_hd_digit id (targs_enc targs ++ tail) Hid) as Hd.
+    destruct (src id ++ targs_enc targs ++ tail) as [| d tl] eqn:E.
+    { exfalso. unfold src in E. destruct (hd0_dec_digit _ (id ++ targs_enc targs ++ tail) (ident_len id Hid)) as [_ Hne].
+      rewrite <- app_assoc in E. destruct (dec (Z.of_nat (List.length id))); [ contradiction | discriminate ]. }
+    cbn [hd0] in Hd. unfold NS at 1.
+    erewrite bind_R; [| apply (curr_at _ (d :: tl)); [ exact H | reflexivity ] ].
+    rewrite bind_eof. stsimpl. pose proof (At_lt _ _ _ H) as Hlt. rwf (p >=? L). cbn [hd0]. chs. cbn [Z.eqb].
+    rwf (d =? 69). cbn [orb negb].
+    erewrite bind_R; [| apply (peek1_at _ d tl); [ exact H | reflexivity ] ].
+    rwf (d =? 68). rwf (d =? 67). cbn [andb orb]. rwf (d =? 85). cbn [orb].
+    unfold islower, isdigit. rwf (97 <=? d). rwt (48 <=? d). rwt (d <=? 57). cbn [andb orb].
+    rewrite <- E in H, Hnd.
+    assert (Hnd2 : no_dollar (id ++ targs_enc targs ++ tail)).
+    { unfold src in Hnd. rewrite <- app_assoc in Hnd. eapply no_dollar_app_r. exact Hnd. }
+    assert (HB2 : hd0 (targs_enc targs ++ tail) <> 66).
+    { destruct targs; cbn [targs_enc app hd0]; [ exact HtailB | lia ]. }
+    destruct k1 as [| k2]; [ destruct targs; cbn [tcost snd] in Hk; lia |].
+    fold (NS p o lv fnm).
+    erewrite bind_R; [| apply (unq_src k2 p o lv fnm id (targs_enc targs ++ tail)); assumption ].
+    apply At_src_tail in H.
+    cbn [map fst out_after fnm_after] in Hout, Hfnm.
+    destruct targs as [| t0 ts].
+    + (* no template arguments *)
+      cbn [targs_enc app] in *. cbn [tcost snd] in Hk.
+      rewrite (IH l (S k2) _ _ lv false rest x); try assumption.
+      * change (tenc (id, [])) with (src id ++ []). rewrite app_nil_r, app_length. f_equal. unfold NS. f_equal. lia.
+      * eapply no_dollar_app_r. exact Hnd.
+      * destruct cs; reflexivity.
+      * lia.
+    + (* I <types> E *)
+      cbn [tcost snd] in Hk. set (targs := t0 :: ts) in *.
+      assert (Hte : targs_enc targs = 73 :: targs ++ [69]) by reflexivity.
+      rewrite Hte in *. 
+      change (run s 0 (S k2) (LNested 0)) with (nested_loop s 0 (run s 0 k2) 0).
+      unfold nested_loop. unfold NS at 1.
+      set (p1 := p + Z.of_nat (List.length (src id))) in *.
+      assert (H' : At p1 (73 :: (targs ++ 69 :: tail))).
+      { replace (73 :: targs ++ 69 :: tail) with ((73 :: targs ++ [69]) ++ tail); [ exact H |].
+        cbn [app]. rewrite <- app_assoc. reflexivity. }
+      erewrite bind_R; [| apply (curr_at _ (73 :: targs ++ 69 :: tail)); [ exact H' | reflexivity ] ].
+      rewrite bind_eof. stsimpl. pose proof (At_lt _ _ _ H') as Hlt1. rwf (p1 >=? L). cbn [hd0]. chs.
+      cbn [Z.eqb Pos.eqb orb negb].
+      erewrite bind_R; [| apply (peek1_at _ 73 (targs ++ 69 :: tail)); [ exact H' | reflexivity ] ].
+      cbn [andb orb]. unfold islower, isdigit. cbn [Z.leb Z.compare Pos.compare Pos.compare_cont andb orb].
+      fold (NS p1 (add_out (sep_out o fnm) id) lv false).
+      erewrite bind_R; [| apply (template_args_at targs k2 p1 _ lv false tail); [ lia | exact H' | exact Hta ] ].
+      assert (H2 : At (p1 + Z.of_nat (List.length targs) + 2) tail).
+      { replace (p1 + Z.of_nat (List.length targs) + 2) with (p1 + Z.of_nat (List.length (73 :: targs ++ [69])))
+          by (cbn [List.length]; rewrite app_length; cbn [List.length]; lia).
+        apply At_app. exact H. }
+      rewrite (IH l k2 _ _ lv false rest x); try assumption.
+      * f_equal. unfold NS. f_equal. unfold tenc. cbn [fst snd]. rewrite Hte. cbn [List.length].
+        repeat rewrite app_length. cbn [List.length]. repeat rewrite app_length. cbn [List.length]. unfold p1. lia.
+      * eapply no_dollar_app_r. eapply no_dollar_app_r. exact Hnd.
+      * destruct cs; reflexivity.
+      * lia.
+Qed.
+
+(* ---- dd_encoding around any name that is followed by builtin types up to the end of the string *)
+Lemma encoding_generic : forall c0 tl x pe params F3,
+  At 0 (95 :: 90 :: c0 :: tl) -> c0 <> 84 -> c0 <> 71 ->
+  run s 0 (S (S F3)) FName (NS 2 None 1 true) = R 0 (NS pe (Some x) 1 false) ->
+  At pe params -> forallb is_builtin params = true -> (List.length params + 1 <= F3)%nat ->
+  run s 0 (S (S (S F3))) FEncoding (st0 L) = R 0 (NS L (Some x) 0 false).
+Proof.
+  intros c0 tl x pe params F3 H0 HcT HcG Hname Hpe Hpar HF.
+  pose proof (At_cons _ _ _ H0) as H1. pose proof (At_cons _ _ _ H1) as H2. cbn [Z.add Pos.add] in H1, H2.
+  change (run s 0 (S (S (S F3))) FEncoding) with (dd_encoding s 0 (run s 0 (S (S F3)))).
+  unfold dd_encoding, st0.
+  pose proof (At_lt _ _ _ H0) as HL0.
+  rewrite bind_eof. stsimpl. rwf (0 >=? L). cbn [Z.eqb].
+  rewrite bind_gets. stsimpl. cbn [Z.eqb].
+  erewrite bind_R; [| apply (consume_n_at _ 2 (95 :: 90 :: c0 :: tl)); [ exact H0 | reflexivity | cbn [List.length]; lia ] ].
+  stsimpl. cbn [Z.add]. unfold inc_level. rewrite bind_modify. stsimpl. cbn [Z.add].
+  erewrite bind_R; [| apply (curr_at _ (c0 :: tl)); [ exact H2 | reflexivity ] ].
+  cbn [hd0]. chs. rwf (c0 =? 84). rwf (c0 =? 71). cbn [orb].
+  fold (NS 2 None 1 true). erewrite bind_R; [| exact Hname ].
+  cbn [Z.ltb Z.compare].
+  erewrite bind_R.
+  2:{ replace (S (S F3)) with (List.length params + S (S (S (F3 - List.length params - 1))))%nat by lia.
+      apply (enc_types_builtin params _ pe _ Hpe Hpar). }
+  assert (HpeL : pe + Z.of_nat (List.length params) = L) by (destruct Hpe as [_ [_ HH]]; exact HH).
+  rewrite HpeL.
+  assert (Hend : At L []).
+  { rewrite <- HpeL. replace params with (params ++ []) in Hpe by apply app_nil_r. apply (At_app _ params []). exact Hpe. }
+  unfold NS at 1.
+  erewrite bind_R; [| apply (curr_at _ []); [ exact Hend | reflexivity ] ].
+  cbn [hd0]. chs. cbn [Z.eqb]. rewrite bind_ret.
+  erewrite bind_R; [| apply (curr_at _ []); [ exact Hend | reflexivity ] ].
+  cbn [hd0 Z.eqb]. rewrite bind_ret.
+  unfold dec_level. rewrite bind_modify. stsimpl. reflexivity.
+Qed.
+
+(* _Z N (<source-name> [I <builtin>+ E])+ <last> E <builtin>* *)
+Lemma tencoding_at : forall c cs l params F,
+  s = str "_ZN" ++ tsrcs (c :: cs) ++ last_enc l ++ 69 :: params ->
+  forallb tcomp_okb (c :: cs) = true -> last_okb l = true -> forallb is_builtin params = true ->
+  no_dollar (tsrcs (c :: cs) ++ last_enc l ++ 69 :: params) -> L <= INT_MAX ->
+  (tcosts (c :: cs) + List.length params + 10 <= F)%nat ->
+  run s 0 F FEncoding (st0 L) = R 0 (NS L (Some (last_out (join_sep (map fst (c :: cs))) l)) 0 false).
+Proof.
+  intros c cs l params F Hs Hok Hl Hpar Hnd HL HF.
+  set (comps := c :: cs) in *.
+  set (body := tsrcs comps ++ last_enc l ++ 69 :: params) in *.
+  assert (H0 : At 0 (95 :: 90 :: 78 :: body)).
+  { unfold At. split; [ lia |]. split; [ unfold suffix; cbn [Z.add Z.to_nat skipn]; rewrite Hs; reflexivity |].
+    unfold flen. rewrite Hs. cbn [str app List.length]. lia. }
+  pose proof (At_cons _ _ _ H0) as H1. pose proof (At_cons _ _ _ H1) as H2. cbn [Z.add Pos.add] in H1, H2.
+  destruct F as [| F1]; [ lia |]. destruct F1 as [| F2]; [ lia |]. destruct F2 as [| F3]; [ lia |].
+  set (pe := 3 + Z.of_nat (List.length (tsrcs comps)) + Z.of_nat (List.length (last_enc l)) + 1).
+  assert (Hpe : At pe params).
+  { unfold pe. replace (3 + Z.of_nat (List.length (tsrcs comps)) + Z.of_nat (List.length (last_enc l)) + 1)
+      with (2 + 1 + Z.of_nat (List.length (tsrcs comps)) + Z.of_nat (List.length (last_enc l)) + Z.of_nat (List.length [69])) by (cbn [List.length]; lia).
+    apply (At_app _ [69] params). apply (At_app _ (last_enc l)). apply (At_app _ (tsrcs comps)).
+    apply At_cons in H2. exact H2. }
+  apply (encoding_generic 78 body (last_out (join_sep (map fst comps)) l) pe params F3 H0); try lia; try assumption.
+  change (run s 0 (S (S F3)) FName) with (dd_name s 0 (run s 0 (S F3))).
+  unfold dd_name. unfold NS at 1.
+  erewrite bind_R; [| apply (curr_at _ (78 :: body)); [ exact H2 | reflexivity ] ].
+  pose proof (At_lt _ _ _ H2).
+  rewrite bind_eof. stsimpl. rwf (2 >=? L). cbn [hd0]. chs. cbn [Z.eqb Pos.eqb].
+  change (run s 0 (S F3) FNestedName) with (dd_nested_name s 0 (run s 0 F3)).
+  unfold dd_nested_name.
+  rewrite bind_eof. stsimpl. rwf (2 >=? L). cbn [Z.eqb].
+  unfold expect at 1. unfold consume.
+  erewrite bind_R; [| apply (consume_n_at _ 1 (78 :: body)); [ exact H2 | reflexivity | cbn [List.length]; lia ] ].
+  cbn [hd0]. chs. cbn [Z.eqb Pos.eqb]. stsimpl.
+  unfold inc_level. rewrite bind_modify. stsimpl. cbn [Z.add Pos.add].
+  fold (NS 3 None 2 true).
+  apply At_cons in H2. cbn [Z.add Pos.add] in H2.
+  erewrite bind_R.
+  2:{ apply (nested_tcomps comps l F3 3 None 2 true params (join_sep (map fst comps))); try assumption.
+      - unfold comps. cbn [map]. apply out_after_start.
+      - reflexivity.
+      - lia. }
+  assert (H4 : At (3 + Z.of_nat (List.length (tsrcs comps)) + Z.of_nat (List.length (last_enc l))) (69 :: params)).
+  { apply (At_app _ (last_enc l)). apply (At_app _ (tsrcs comps)). exact H2. }
+  unfold expect. unfold consume. unfold NS at 1.
+  erewrite bind_R; [| apply (consume_n_at _ 1 (69 :: params)); [ exact H4 | reflexivity | cbn [List.length]; lia ] ].
+  cbn [hd0]. chs. cbn [Z.eqb Pos.eqb]. stsimpl.
+  unfold dec_level. rewrite bind_modify. stsimpl. unfold ret, NS. cbn [Z.sub Z.add Z.opp Z.pos_sub Pos.pred_double].
+  reflexivity.
+Qed.
 End Walk.
 
 (* ================================================================ the formal mangler and the theorem *)
@@ -1266,4 +1549,100 @@ Example roundtrip_examples2 :
   unscoped_okb (str "main_loop") (str "iPc") = false /\
   unscoped_okb (str "main_loop") (str "ic") = true /\
   unscoped_mangle (str "main_loop") (str "ic") = str "_Z9main_loopic".
+Proof. vm_compute. repeat split; reflexivity. Qed.
+
+(* ================================================================ class / function templates with builtin arguments *)
+Record tdecl := mktdecl { t_first : list Z * list Z; t_rest : list (list Z * list Z); t_last : lastk; t_params : list Z }.
+Definition tscopes (d : tdecl) : list (list Z * list Z) := t_first d :: t_rest d.
+(* _Z N (<source-name> [I <builtin type>+ E])+ [C<n> | D<n> | <operator code>] E <builtin type>*  *)
+Definition tmangle (d : tdecl) : list Z :=
+  str "_ZN" ++ tsrcs (tscopes d) ++ last_enc (t_last d) ++ 69 :: t_params d.
+Definition tdecl_okb (d : tdecl) : bool :=
+  forallb tcomp_okb (tscopes d) && last_okb (t_last d) && forallb is_builtin (t_params d)
+  && (Z.of_nat (List.length (tmangle d)) <=? INT_MAX).
+(* the same declaration without its template-argument lists *)
+Definition erase (d : tdecl) : decl := mkdecl (fst (t_first d)) (map fst (t_rest d)) (t_last d) (t_params d).
+
+Lemma last_out_eq : forall a cs l, Forall (fun id => ident_okb id = true) (a :: cs) -> last_okb l = true ->
+  last_out (join_sep (a :: cs)) l =
+  join_sep (a :: cs) ++
+  match l with
+  | LPlain => []
+  | LCtor _ => str "::" ++ last (a :: cs) []
+  | LDtor _ => str "::~" ++ last (a :: cs) []
+  | LOp c0 c1 => str "::operator" ++ op_name c0 c1
+  end.
+Proof.
+  intros a cs l Hok Hl.
+  assert (Hnc : Forall no_colon (a :: cs)).
+  { eapply Forall_impl; [| exact Hok ]. intros x Hx. apply ident_no_colon. exact Hx. }
+  destruct l as [| kd | kd | c0 c1]; cbn [last_out].
+  - rewrite app_nil_r. reflexivity.
+  - rewrite (last_segment_join _ _ Hnc). reflexivity.
+  - rewrite (last_segment_join _ _ Hnc). reflexivity.
+  - unfold op_name. destruct (find_op ops c0 c1) as [nm |] eqn:E.
+    + rewrite <- !app_assoc. reflexivity.
+    + exfalso. cbn [last_okb] in Hl. rewrite E in Hl. rewrite andb_false_r in Hl. discriminate.
+Qed.
+
+Lemma no_dollar_tsrcs : forall cs, forallb tcomp_okb cs = true -> no_dollar (tsrcs cs).
+Proof.
+  induction cs as [| [id ta] cs IH]; intros H; [ constructor |].
+  cbn [forallb] in H. apply andb_prop in H. destruct H as [Hc Hcs].
+  unfold tcomp_okb in Hc. cbn [fst snd] in Hc. apply andb_prop in Hc. destruct Hc as [Hid Hta].
+  unfold tsrcs. cbn [map List.concat]. apply Forall_app. split; [| apply IH; exact Hcs ].
+  unfold tenc. cbn [fst snd]. apply Forall_app. split; [ apply no_dollar_src; exact Hid |].
+  destruct ta as [| t0 ts]; [ constructor |]. cbn [targs_enc].
+  constructor; [ lia |]. apply Forall_app. split; [ apply no_dollar_params; exact Hta | repeat constructor; lia ].
+Qed.
+
+Lemma tcosts_bound : forall cs, forallb tcomp_okb cs = true -> (tcosts cs <= 8 * List.length (tsrcs cs))%nat.
+Proof.
+  induction cs as [| [id ta] cs IH]; intros H; [ cbn; lia |].
+  cbn [forallb] in H. apply andb_prop in H. destruct H as [Hc Hcs].
+  unfold tcomp_okb in Hc. cbn [fst snd] in Hc. apply andb_prop in Hc. destruct Hc as [Hid _].
+  specialize (IH Hcs). unfold tsrcs in *. cbn [map List.concat tcosts fold_right]. fold (tcosts cs).
+  rewrite app_length. unfold tenc at 1. cbn [fst snd]. rewrite app_length.
+  pose proof (ident_len id Hid).
+  assert (1 <= List.length (src id))%nat by (unfold src; rewrite app_length; lia).
+  unfold tcost. cbn [snd]. destruct ta as [| t0 ts]; cbn [targs_enc List.length].
+  - lia.
+  - rewrite app_length. cbn [List.length]. lia.
+Qed.
+
+Theorem roundtrip_templates : forall d, tdecl_okb d = true -> demangle (tmangle d) = Str (simple_name (erase d)).
+Proof.
+  intros d H. unfold tdecl_okb in H.
+  apply andb_prop in H. destruct H as [H HL]. apply andb_prop in H. destruct H as [H Hpar].
+  apply andb_prop in H. destruct H as [Hok Hl].
+  set (s := tmangle d) in *.
+  assert (Hs : s = str "_ZN" ++ tsrcs (t_first d :: t_rest d) ++ last_enc (t_last d) ++ 69 :: t_params d) by reflexivity.
+  assert (Hnd : no_dollar (tsrcs (t_first d :: t_rest d) ++ last_enc (t_last d) ++ 69 :: t_params d)).
+  { apply Forall_app. split; [ apply no_dollar_tsrcs; exact Hok |].
+    apply Forall_app. split; [ apply no_dollar_last; exact Hl |].
+    constructor; [ lia | apply no_dollar_params; exact Hpar ]. }
+  assert (HLs : flen s <= INT_MAX) by (unfold flen; apply Z.leb_le; exact HL).
+  assert (Hfuel : (tcosts (t_first d :: t_rest d) + List.length (t_params d) + 10 <= fuel_of s)%nat).
+  { unfold fuel_of. rewrite Hs. cbn [str]. repeat rewrite app_length. cbn [List.length].
+    pose proof (tcosts_bound _ Hok). unfold tscopes in *. lia. }
+  assert (Hids : Forall (fun id => ident_okb id = true) (map fst (t_first d :: t_rest d))).
+  { apply Forall_forall. intros x Hx. apply in_map_iff in Hx. destruct Hx as [c [Hc1 Hc2]]. subst x.
+    unfold tscopes in Hok. rewrite forallb_forall in Hok. specialize (Hok c Hc2).
+    unfold tcomp_okb in Hok. apply andb_prop in Hok. tauto. }
+  replace (simple_name (erase d)) with (last_out (join_sep (map fst (t_first d :: t_rest d))) (t_last d)).
+  - apply demangle_of_encoding.
+    + rewrite Hs. reflexivity.
+    + unfold mangled_form, stripped. rewrite Hs. reflexivity.
+    + apply (tencoding_at s (t_first d) (t_rest d) (t_last d) (t_params d) (fuel_of s) Hs Hok Hl Hpar Hnd HLs Hfuel).
+  - cbn [map] in *. rewrite (last_out_eq _ _ _ Hids Hl). unfold simple_name, erase, scopes. cbn [d_first d_rest d_last].
+    reflexivity.
+Qed.
+
+Definition td_ctor : tdecl :=
+  mktdecl (str "v8", []) [(str "internal", []); (str "ScopedVector", str "c")] (LCtor (ch "1")) (str "i").
+Definition td_fn : tdecl := mktdecl (str "ns", []) [(str "tf", str "il")] LPlain (str "ii").
+Example roundtrip_examples3 :
+  tdecl_okb td_ctor = true /\ tmangle td_ctor = str "_ZN2v88internal12ScopedVectorIcEC1Ei" /\
+  simple_name (erase td_ctor) = str "v8::internal::ScopedVector::ScopedVector" /\
+  tdecl_okb td_fn = true /\ tmangle td_fn = str "_ZN2ns2tfIilEEii" /\ simple_name (erase td_fn) = str "ns::tf".
 Proof. vm_compute. repeat split; reflexivity. Qed.
